@@ -15,6 +15,7 @@ the aged object.
 from __future__ import annotations
 
 import errno
+import os
 import random
 import sys
 
@@ -1260,14 +1261,17 @@ def generate(rng, tier, opts, index=None):
         ops.append(gen_new(rng, o, tier, focus, force_valid=True))
         if rng.random() < 0.85:
             ops.append(gen_op(rng, "add", o, pool, tier, focus))
-    # stratified skeleton for low indices: every ordered triple of the 14-op alphabet
+    # stratified skeleton for low indices: every ordered d-tuple of the 14-op alphabet
+    # (d = 3 in the quick tier, 4 in the thorough tier, VERIF_SKELETON_DEPTH overrides)
     skeleton = []
-    if index is not None and index < len(SKELETON) ** 3:
+    depth = int(os.environ.get("VERIF_SKELETON_DEPTH") or (4 if tier == "thorough" else 3))
+    if index is not None and index < len(SKELETON) ** depth:
         i = index
-        for _ in range(3):
+        for _ in range(depth):
             skeleton.append(SKELETON[i % len(SKELETON)])
             i //= len(SKELETON)
         ops.append({"op": "make", "obj": 0, "fit": True})
+        length = max(length, depth)
     for k in range(length):
         kind = skeleton[k] if k < len(skeleton) else rng.choices(kinds, weights)[0]
         obj = 0 if k < len(skeleton) else rng.randrange(nobj)
@@ -1449,7 +1453,8 @@ def assumptions(prop):
         "(differential oracle: says nothing about ISO conformance, which C11 does not claim)",
         "Pillow, pypng, decimal and xml.etree run for real and are trusted to be deterministic",
         "sampling of histories, not enumeration; low run indices are stratified over every "
-        "ordered triple of a 14-operation alphabet",
+        "ordered triple (quick) / 4-tuple (thorough) of a 14-operation alphabet, arguments "
+        "stay seeded",
     ]
     if prop == "C15":
         base.append("glyph conventions: half blocks (NBSP, U+2580, U+2584, U+2588); ink is dark "
